@@ -85,6 +85,40 @@ theorem tables_agree_with_repo :
       Generated.FrontTables.unopMap Generated.FrontTables.isBinOpTokens = true := by
   decide +kernel
 
+/-! ## multi-valued expressions (§3.4.12): what `explistCount` — the function the correspondence
+    compares golua's value counts with — says -/
+
+/-- every expression before the last contributes exactly one value, whatever it is -/
+theorem explist_nonlast_one (x y : ListItem) (r : List ListItem) :
+    explistCount (x :: y :: r) = 1 + explistCount (y :: r) := by
+  cases x <;> rfl
+
+/-- an unparenthesised call / `...` in LAST position delivers all its values … -/
+theorem explist_last_expands (pre : List ListItem) (m : Nat) :
+    explistCount (pre ++ [.multi m false]) = pre.length + m := by
+  induction pre with
+  | nil => simp [explistCount]
+  | cons x t ih =>
+    cases t with
+    | nil => cases x <;> simp [explistCount]; all_goals omega
+    | cons y t' =>
+      rw [List.cons_append, List.cons_append, explist_nonlast_one, ← List.cons_append, ih]
+      simp; omega
+
+/-- … and a parenthesised one, like any single-valued expression, exactly one:
+    `(f())`, `(...)` (golua before 1fa8626: `return (...)` returned every extra argument) -/
+theorem explist_last_paren (pre : List ListItem) (m : Nat) :
+    explistCount (pre ++ [.multi m true]) = pre.length + 1 ∧ explistCount (pre ++ [.single]) = pre.length + 1 := by
+  induction pre with
+  | nil => simp [explistCount]
+  | cons x t ih =>
+    cases t with
+    | nil => cases x <;> simp [explistCount]
+    | cons y t' =>
+      simp only [List.cons_append] at ih ⊢
+      rw [explist_nonlast_one, explist_nonlast_one, ih.1, ih.2]
+      simp; omega
+
 /-! ## string literals -/
 
 /-- every byte string, spelled with ANY choice among the escape forms (raw, `\n`-style, `\ddd`,
